@@ -81,6 +81,7 @@ SIG_ATTRCOUNT = "stops-answering|stuck-under:sftp_attr.py:_from_msg"
 SIG_CLIENTHANG = "client-blocks-forever|pipelined-write-reply-consumed-by-other-request"
 
 _present = {}  # exclusion name -> bool (defect reproduced in this process)
+_client_blocked = [False]  # an unlisted client block was reported in this run: part (B) stops exploring
 _counter = [0]
 
 
@@ -278,6 +279,25 @@ class Pump:
         return True
 
 
+_scratch_dir = [None]
+
+
+def scratch(ctx):
+    """Directory for the served trees: tmpfs when available (each case builds and removes a small tree), else ctx.tmpdir().
+    Removed at interpreter exit."""
+    if _scratch_dir[0] is None or not os.path.isdir(_scratch_dir[0]):
+        import atexit
+        import tempfile
+
+        shm = "/dev/shm"
+        if os.path.isdir(shm) and os.access(shm, os.W_OK):
+            _scratch_dir[0] = tempfile.mkdtemp(prefix="verif-C30-", dir=shm)
+            atexit.register(shutil.rmtree, _scratch_dir[0], True)
+        else:
+            _scratch_dir[0] = ctx.tmpdir()
+    return _scratch_dir[0]
+
+
 def frame(t, rid, body):
     return u32(len(body) + 5) + bytes([t]) + u32(rid) + body
 
@@ -301,11 +321,46 @@ def make_root(root):
 
 
 class Guard:
-    """Fault-plan object: no faults, only counts handle reads per request."""
+    """Fault-plan object: counts handle reads per request (livelock guard) and injects the case's faults.
 
-    def __init__(self):
+    per_request = {i: {"skip": k, "act": ["raise", errno] | ["error", code]}}: while request number i of the stream
+        (from 0) is served, backend call number k (from 0; handle close/stat/chattr/read/write or any interface
+        method) fails - in a case this is the "fault" entry of packet i;
+    faults = [{"op": "handle.close" | "iface.open" | ..., "n": k, "count": c, "act": ...}]: calls number k .. k+c-1 of
+        that operation (per session, from 0) fail."""
+
+    def __init__(self, faults=(), per_request=None):
         self.reads = 0
         self.fired = 0
+        self.req = -1  # index of the request being served
+        self.calls = 0  # backend calls made for it so far
+        self.plan, self.at = {}, {}
+        for i, f in (per_request or {}).items():
+            self.at[(int(i), int(f.get("skip", 0)))] = (f["act"][0], int(f["act"][1]))
+        for f in faults or ():
+            for k in range(int(f["n"]), int(f["n"]) + int(f.get("count", 1))):
+                self.plan.setdefault((f["op"], k), (f["act"][0], int(f["act"][1])))
+        self.faults_fired = []  # "op:kind"
+
+    def begin_request(self, idx):
+        self.reads = 0
+        self.req = idx
+        self.calls = 0
+
+    def _fault(self, op, n):
+        act = self.at.get((self.req, self.calls))
+        if act is None:
+            act = self.plan.get((op, n))
+        self.calls += 1
+        if act is not None:
+            self.faults_fired.append("%s:%s" % (op, act[0]))
+        return act
+
+    def on_call(self, where, op, n, args):
+        return self._fault(where + "." + op, n)
+
+    def on_write(self, handle, n, offset, data):
+        return self._fault("handle.write", n)
 
     def on_read(self, handle, n, offset, length):
         from vlib.sftpenv import HarnessAbortLoop
@@ -315,7 +370,7 @@ class Guard:
             self.fired += 1
             self.reads = 0
             raise HarnessAbortLoop("more than %d reads while serving one request" % READ_LIMIT)
-        return None
+        return self._fault("handle.read", n)
 
 
 def instrument(server, guard=None):
@@ -324,9 +379,9 @@ def instrument(server, guard=None):
     proc, send = server._process, server._send_packet
 
     def _process(t, request_number, msg):
-        stats["requests"] += 1
         if guard is not None:
-            guard.reads = 0
+            guard.begin_request(stats["requests"])
+        stats["requests"] += 1
         return proc(t, request_number, msg)
 
     def _send_packet(t, packet):
@@ -455,9 +510,9 @@ def _serve(ctx, case, forced):
 
     pkts = [(int(p["t"]), int(p["id"]), bytes(p["body"])) for p in case["pkts"]]
     _counter[0] += 1
-    root = os.path.join(ctx.tmpdir(), "s%d" % _counter[0])
+    root = os.path.join(scratch(ctx), "s%d" % _counter[0])
     make_root(root)
-    guard = Guard()
+    guard = Guard(case.get("faults"), {i: p["fault"] for i, p in enumerate(case["pkts"]) if p.get("fault")})
     env = SftpEnv(root, guard, loop_limit=READ_LIMIT // 2, start_client=False)
     sent = []  # (t, id, body) in order
     verdict = None
@@ -520,6 +575,7 @@ def _serve(ctx, case, forced):
         "responses": responses,
         "verdict": verdict,
         "guard_fired": guard.fired,
+        "faults_fired": sorted(set(guard.faults_fired)),
         "log_abort": log_abort,
         "thread_exc": thread_exc,
         "requests": stats["requests"],
@@ -531,9 +587,12 @@ def _judge_server(ctx, case, run):
     log_abort, thread_exc = run["log_abort"], run["thread_exc"]
 
     # ---- evidence
-    nontrivial = bool(case.get("nt"))
+    nontrivial = bool(case.get("nt")) or bool(run.get("faults_fired"))
     classes = ["A:stream"] + sorted(set("A:req:" + req_name(t) for t, _, _ in sent[:-2] or sent))
     classes += sorted(set("A:resp:%s" % t for t, _ in responses))
+    classes += ["A:fault:" + f for f in run.get("faults_fired", ())]
+    if case.get("faults") or any(p.get("fault") for p in case["pkts"]):
+        classes.append("A:stream-with-fault-plan")
     ctx.case(case, nontrivial, classes)
     ctx.count("A:requests", len(sent))
 
@@ -633,6 +692,14 @@ def _judge_server(ctx, case, run):
 # ----------------------------------------------------------------------------- (B) client
 
 PATHS = ["/r0", "/", "/w0", "/w1", "/nope", "/d"]
+RMODES = ["rb", "r+b"]
+R_FILE_OPS = ("rprefetch", "rreadv", "rtruncate", "rchmod", "rutime", "rfstat", "rseek")
+QUIET_BOUND_S = 6.0
+
+
+class _Abort(BaseException):
+    """Raised asynchronously inside an application thread that spins instead of returning (so that it does not stay behind)."""
+
 
 
 def run_client_once(ctx, case, observe):
@@ -641,7 +708,7 @@ def run_client_once(ctx, case, observe):
 
     ops = case["ops"]
     _counter[0] += 1
-    root = os.path.join(ctx.tmpdir(), "k%d" % _counter[0])
+    root = os.path.join(scratch(ctx), "k%d" % _counter[0])
     os.makedirs(os.path.join(root, "d"))
     with open(os.path.join(root, "r0"), "wb") as f:
         f.write(b"0123456789abcdef" * 6250)  # 100000 bytes
@@ -655,11 +722,35 @@ def run_client_once(ctx, case, observe):
     risk = {}  # slot -> a non-write request was issued while writes were unacknowledged
     rf = [None]
     payload = b"w" * 40000
-    info = {"executed": 0, "raised": 0, "skipped": 0, "excluded": 0, "risky": 0, "blocked_at": None, "why": None, "op": None, "on_risky_file": False}
+    info = {"executed": 0, "raised": 0, "skipped": 0, "excluded": 0, "risky": 0, "ra_risky": 0, "ra_reads": 0, "blocked_at": None, "why": None, "op": None, "on_risky_file": False}
 
     def outstanding(slot):
         f = wf.get(slot)
         return f is not None and len(f._reqs) > 0
+
+    def let_readahead_go(f, cap, nreq=None):
+        """Schedule dimension: the application does something else until the library's helper thread has sent its
+        read-ahead requests (all of them, or as many as the concurrency cap allows)."""
+        t_end = time.monotonic() + 0.25
+        while time.monotonic() < t_end:
+            helpers = [t for t in threading.enumerate() if t not in baseline and t is not threading.current_thread()]
+            if not helpers:
+                return
+            if cap is not None:
+                with f._prefetch_lock:
+                    if len(f._prefetch_extents) >= cap:
+                        return
+            time.sleep(0.001)
+
+    def readahead_outstanding():
+        """The read file has read-ahead requests (prefetch / readv) whose replies nobody has consumed yet, or a helper
+        thread is still sending some."""
+        f = rf[0]
+        if f is None:
+            return False
+        with f._prefetch_lock:
+            n = len(f._prefetch_extents)
+        return n > 0 or any(t not in baseline and t is not threading.current_thread() for t in threading.enumerate())
 
     def note_other(except_slot=None):
         for s in list(wf):
@@ -760,16 +851,65 @@ def run_client_once(ctx, case, observe):
             note_other()
 
             def go():
-                f = client.open("/r0", "rb")
+                f = client.open("/r0", RMODES[op[3] % len(RMODES)] if len(op) > 3 else "rb")
                 rf[0] = f
                 if op[1]:
                     f.prefetch(None, op[2])
+                    if len(op) > 4 and op[4]:
+                        let_readahead_go(f, op[2])
 
             return go
+        if k in R_FILE_OPS:
+            # operations on the file that (possibly) has read-ahead replies outstanding
+            f = rf[0]
+            if f is None:
+                return None
+            if k == "rseek":
+                off, whence = op[1], op[2]
+                base = 0 if whence == 0 else (f.tell() if whence == 1 else os.path.getsize(os.path.join(root, "r0")))
+                if base + off < 0:
+                    return None  # a negative position is outside the domain of seek()
+                if whence == 2:
+                    note_other()  # SEEK_END asks the server for the size
+            else:
+                note_other()
+            if readahead_outstanding():
+                info["ra_risky"] += 1
+                observe("B:%s-with-readahead-outstanding" % k)
+            if k == "rprefetch":
+
+                def go():
+                    f.prefetch(None, op[1])
+                    if op[2]:
+                        let_readahead_go(f, op[1])
+
+                return go
+            if k == "rreadv":
+
+                def go():
+                    it = f.readv([tuple(c) for c in op[1]], op[3])
+                    got = [len(next(it)) for _ in range(min(op[2], len(op[1])))]  # the rest is never asked for
+                    if op[4]:
+                        let_readahead_go(f, op[3])
+                    return got
+
+                return go
+            if k == "rtruncate":
+                return lambda: f.truncate(op[1])
+            if k == "rchmod":
+                return lambda: f.chmod(op[1])
+            if k == "rutime":
+                return lambda: f.utime(None if op[1] is None else tuple(op[1]))
+            if k == "rfstat":
+                return lambda: f.stat()
+            if k == "rseek":
+                return lambda: f.seek(op[1], op[2])
         if k == "rread":
             if rf[0] is None:
                 return None
             note_other()
+            if readahead_outstanding():
+                info["ra_reads"] += 1
             return lambda: len(rf[0].read(op[1]))
         if k == "rclose":
             if rf[0] is None:
@@ -810,6 +950,7 @@ def run_client_once(ctx, case, observe):
         g = W.Guarded(program)
         g.thread.start()
         moved = None
+        quiet = {"snap": None, "t0": None}
         while not g.done.wait(0.02):
             snap = (cchan.sent, cchan.received)
             if snap != moved:
@@ -817,21 +958,46 @@ def run_client_once(ctx, case, observe):
             why = poll(g.thread)
             if why and stats["requests"] != stats["responses"]:
                 why = None  # the server owes an answer: not the client's fault (falls back to the long bound)
+            if why is None:
+                # settled link: the server has consumed every request byte, answered every request and waits for the
+                # next one; no helper thread is alive; the application thread neither sends nor reads (responses may
+                # still sit unread in the channel). Nothing new can reach it any more. If it is not parked in recv
+                # (deadlock proof above) but computes on and on, QUIET_BOUND_S (600x the library's polling period, for
+                # at most a few hundred KiB of buffered data) is the bound.
+                full = (cchan.sent, cchan.received, schan.sent, schan.received)
+                settled = (
+                    cchan.sent == schan.received
+                    and stats["requests"] == stats["responses"]
+                    and sth.is_alive()
+                    and W._in_recv(sth)
+                    and not [t for t in threading.enumerate() if t not in baseline and t is not g.thread]
+                )
+                if settled and full == quiet["snap"]:
+                    if time.monotonic() - quiet["t0"] > QUIET_BOUND_S:
+                        why = (
+                            "no return for %.0f s although the link is settled (all %d request bytes consumed and answered, %d of %d response "
+                            "bytes read by the client, server idle in recv, no other thread alive)" % (QUIET_BOUND_S, full[0], full[1], full[2])
+                        )
+                else:
+                    quiet["snap"], quiet["t0"] = (full if settled else None), time.monotonic()
             if why is None and time.monotonic() - cur["t0"] > CLIENT_BOUND_S:
                 why = "no return and no traffic on the link for %.0f s" % CLIENT_BOUND_S
             if why:
                 info["blocked_at"] = cur["idx"]
                 info["op"] = cur["op"]
                 info["on_risky_file"] = cur["risky"]
+                info["where"] = W.where(g.thread)
                 info["why"] = "%s; client thread in %s; server processed %d requests and sent %d responses" % (
                     why,
-                    W.where(g.thread),
+                    info["where"],
                     stats["requests"],
                     stats["responses"],
                 )
                 info["server_owes"] = stats["requests"] != stats["responses"]
                 cchan.close()
-                g.join(10)
+                if not g.join(1.0):
+                    W.abort_thread(g.thread, _Abort)  # it spins rather than waits: closing the channel does not reach it
+                    g.join(10)
                 break
         if g.exc is not None and info["blocked_at"] is None:
             raise g.exc  # harness bug inside program()
@@ -850,10 +1016,16 @@ def run_client_case(ctx, case):
     sigs = []
     seen = set()
     blocked, info = run_client_once(ctx, case, seen.add)
-    nontrivial = info["risky"] > 0
+    nontrivial = info["risky"] > 0 or info["ra_risky"] > 0
     classes = ["B:program"] + sorted(seen) + sorted(set("B:op:" + op[0] for op in case["ops"]))
-    if nontrivial:
+    if case.get("focus"):
+        classes.append("B:focus:" + case["focus"])
+    if info["risky"] > 0:
         classes.append("B:nonwrite-while-writes-outstanding")
+    if info["ra_risky"] > 0:
+        classes.append("B:file-op-while-readahead-outstanding")
+        if info["ra_reads"] > 0:
+            classes.append("B:file-ops-and-reads-interleaved-while-readahead-outstanding")
     if info["excluded"]:
         classes.append("B:steered-around-known-hang")
     ctx.case(case, nontrivial, classes)
@@ -871,9 +1043,10 @@ def run_client_case(ctx, case):
     elif info["on_risky_file"] and info["op"][0] in ("write", "wclose"):
         clause, bucket = "client-blocks-forever", "pipelined-write-reply-consumed-by-other-request"
     else:
-        clause, bucket = "client-blocks-forever", "other:%s" % info["op"][0]
+        clause, bucket = "client-blocks-forever", "other:%s@%s" % (info["op"][0], info.get("where", "?"))
     sigs.append("%s|%s" % (clause, bucket))
-    ctx.violation(clause, bucket, case, "call #%d %r never returned (3 runs out of 3): %s" % (info["blocked_at"], info["op"], info["why"]))
+    if not ctx.violation(clause, bucket, case, "call #%d %r never returned (3 runs out of 3): %s" % (info["blocked_at"], info["op"], info["why"])):
+        _client_blocked[0] = True  # unlisted: the run fails; every further hit would cost three more bounds
     return sigs
 
 
@@ -945,72 +1118,112 @@ handles = st.one_of(
     st.builds(lambda n: b"hx%d" % n, st.integers(1, 3)),
     st.sampled_from([b"", b"hx0", b"hx", b"nohandle", b"hx1\x00", b"HX1", b"hx01", b"\xff" * 8, b"h" * 300]),
 )
+# a handle the server has (probably) handed out by then: resolved when the stream is built, to one of the handles of the
+# stream's leading opens (k < 12; those opens are valid and never made to fail) or to hx<1 + k mod opens-so-far>
+live_handles = st.builds(lambda k: ("live", k), st.integers(0, 15))
+_plain_handle_fields = handles.map(lambda h: ("s", h))
+
+
+@st.composite
+def _handle_fields(draw):
+    return draw(live_handles) if draw(st.integers(0, 1)) else draw(_plain_handle_fields)
+
+
+handle_fields = _handle_fields()
 small_off = st.one_of(st.sampled_from([0, 1, 255, 256, 1023, 1024, 1025, 32768, 59999, 60000, 65536, 100000]), st.integers(0, 200000))
 huge = st.sampled_from([1 << 63, (1 << 63) + 5, (1 << 64) - 1])
 offsets = st.one_of(small_off, small_off, small_off, huge)
 ids = st.one_of(st.integers(0, 40), st.integers(0, 40), st.integers(0, 0xFFFFFFEF), st.sampled_from([0, 0xFFFFFFEF, 0x80000000]))
 
 
+# (all strategies are built once, here: building them inside the composites costs more than running the requests)
+_a_flags = st.one_of(st.just(0), st.integers(0, 15), st.sampled_from([0x80000000, 0x8000000F, 0x80000001]))
+_a_size = st.one_of(small_off, huge)
+_a_id = st.integers(0, 70000)
+_a_mode = st.one_of(st.integers(0, 0o7777), st.sampled_from([0o100644, 0o40755, 0, 0xFFFFFFFF]))
+_a_time = st.integers(0, 0xFFFFFFFF)
+_a_zero5 = st.integers(0, 5)
+_a_bigcount = st.sampled_from([1001, 1 << 20, 1 << 31, 0xFFFFFFFF])
+_a_count = st.integers(0, 3)
+_a_xname = st.sampled_from([b"user.x", b"", b"a@b"])
+_a_xval = st.binary(max_size=8)
+
+
 @st.composite
 def attrs_st(draw):
-    flags = draw(st.one_of(st.just(0), st.integers(0, 15), st.sampled_from([0x80000000, 0x8000000F, 0x80000001])))
+    flags = draw(_a_flags)
     out = [("u32", flags)]
     if flags & 1:
-        out.append(("u64", draw(st.one_of(small_off, huge))))
+        out.append(("u64", draw(_a_size)))
     if flags & 2:
-        out += [("u32", draw(st.integers(0, 70000))), ("u32", draw(st.integers(0, 70000)))]
+        out += [("u32", draw(_a_id)), ("u32", draw(_a_id))]
     if flags & 4:
-        out.append(("u32", draw(st.one_of(st.integers(0, 0o7777), st.sampled_from([0o100644, 0o40755, 0, 0xFFFFFFFF])))))
+        out.append(("u32", draw(_a_mode)))
     if flags & 8:
-        out += [("u32", draw(st.integers(0, 0xFFFFFFFF))), ("u32", draw(st.integers(0, 0xFFFFFFFF)))]
+        out += [("u32", draw(_a_time)), ("u32", draw(_a_time))]
     if flags & 0x80000000:
-        if draw(st.integers(0, 5)) == 0:
-            out.append(("u32", draw(st.sampled_from([1001, 1 << 20, 1 << 31, 0xFFFFFFFF]))))
+        if draw(_a_zero5) == 0:
+            out.append(("u32", draw(_a_bigcount)))
         else:
-            n = draw(st.integers(0, 3))
+            n = draw(_a_count)
             out.append(("u32", n))
             for _ in range(n):
-                out += [("s", draw(st.sampled_from([b"user.x", b"", b"a@b"]))), ("s", draw(st.binary(max_size=8)))]
+                out += [("s", draw(_a_xname)), ("s", draw(_a_xval))]
     return out
+
+
+_attrs = attrs_st()
 
 
 def _P(t, fields, d):
     return {"t": t, "fields": fields, "d": d}
 
 
+_p_kind = st.sampled_from(
+    "open open close close read read write write lstat fstat setstat fsetstat fsetstat opendir readdir readdir remove mkdir rmdir "
+    "realpath stat rename readlink symlink checkfile checkfile posixrename extother unknown unknown".split()
+)
+_p_pflags = st.one_of(st.sampled_from([1, 2, 3, 0x1A, 0x0A, 0x2A, 0x06, 0]), st.integers(0, 0x3F))
+_p_rlen = st.sampled_from([0, 1, 100, 32768, 65536, 1 << 20, 0x7FFFFFFF, 0xFFFFFFFF])
+_p_wdata = st.one_of(st.binary(max_size=64), st.sampled_from([b"", b"z" * 2000, b"y" * 40000]))
+_p_algs = st.sampled_from([b"md5", b"sha1", b"md5,sha1", b"sha256,md5", b"sha256", b"", b"crc32", b"\xff"])
+_p_cfstart = st.one_of(st.sampled_from([0, 1, 1023, 1024, 1025, 59999, 60000, 60001]), offsets)
+_p_cflen = st.one_of(st.sampled_from([0, 0, 1, 256, 1024, 1025, 60000, 65536, 65537, 1 << 40, (1 << 64) - 1]), st.integers(0, 70000))
+_p_cfblock = st.sampled_from([0, 0, 1, 255, 256, 257, 1000, 1024, 65536, 65537, 1 << 31, 0xFFFFFFFF])
+_p_extname = st.sampled_from([b"statvfs@openssh.com", b"", b"check-file\x00", b"\xff\xff", b"hardlink@openssh.com", b"CHECK-FILE", b"posix-rename@openssh.co"])
+_p_raw = st.binary(max_size=24)
+_p_cmd = st.one_of(st.integers(0, 255), st.sampled_from([0, 1, 2, 21, 22, 100, 101, 102, 103, 104, 105, 199, 201, 255]))
+_p_mut = st.one_of(st.just(None), st.just(None).map(lambda v: v), st.just(None).map(lambda v: v), st.tuples(st.sampled_from(["trunc", "oversize", "trail"]), st.integers(0, 1 << 30)))
+
+
 @st.composite
 def packet_st(draw):
-    kind = draw(
-        st.sampled_from(
-            "open open close close read read write write lstat fstat setstat fsetstat fsetstat opendir readdir readdir remove mkdir rmdir "
-            "realpath stat rename readlink symlink checkfile checkfile posixrename extother unknown unknown".split()
-        )
-    )
+    kind = draw(_p_kind)
     S = lambda b: ("s", b)  # noqa: E731
     if kind == "open":
-        p = _P(3, [S(draw(paths)), ("u32", draw(st.one_of(st.sampled_from([1, 2, 3, 0x1A, 0x0A, 0x2A, 0x06, 0]), st.integers(0, 0x3F))))] + draw(attrs_st()), "open")
+        p = _P(3, [S(draw(paths)), ("u32", draw(_p_pflags))] + draw(_attrs), "open")
     elif kind == "close":
-        p = _P(4, [S(draw(handles))], "close")
+        p = _P(4, [draw(handle_fields)], "close")
     elif kind == "read":
-        p = _P(5, [S(draw(handles)), ("u64", draw(offsets)), ("u32", draw(st.sampled_from([0, 1, 100, 32768, 65536, 1 << 20, 0x7FFFFFFF, 0xFFFFFFFF])))], "read")
+        p = _P(5, [draw(handle_fields), ("u64", draw(offsets)), ("u32", draw(_p_rlen))], "read")
     elif kind == "write":
-        p = _P(6, [S(draw(handles)), ("u64", draw(offsets)), S(draw(st.one_of(st.binary(max_size=64), st.sampled_from([b"", b"z" * 2000, b"y" * 40000]))))], "write")
+        p = _P(6, [draw(handle_fields), ("u64", draw(offsets)), S(draw(_p_wdata))], "write")
     elif kind == "lstat":
         p = _P(7, [S(draw(paths))], "lstat")
     elif kind == "fstat":
-        p = _P(8, [S(draw(handles))], "fstat")
+        p = _P(8, [draw(handle_fields)], "fstat")
     elif kind == "setstat":
-        p = _P(9, [S(draw(paths))] + draw(attrs_st()), "setstat")
+        p = _P(9, [S(draw(paths))] + draw(_attrs), "setstat")
     elif kind == "fsetstat":
-        p = _P(10, [S(draw(handles))] + draw(attrs_st()), "fsetstat")
+        p = _P(10, [draw(handle_fields)] + draw(_attrs), "fsetstat")
     elif kind == "opendir":
         p = _P(11, [S(draw(paths))], "opendir")
     elif kind == "readdir":
-        p = _P(12, [S(draw(handles))], "readdir")
+        p = _P(12, [draw(handle_fields)], "readdir")
     elif kind == "remove":
         p = _P(13, [S(draw(paths))], "remove")
     elif kind == "mkdir":
-        p = _P(14, [S(draw(paths))] + draw(attrs_st()), "mkdir")
+        p = _P(14, [S(draw(paths))] + draw(_attrs), "mkdir")
     elif kind == "rmdir":
         p = _P(15, [S(draw(paths))], "rmdir")
     elif kind == "realpath":
@@ -1024,24 +1237,22 @@ def packet_st(draw):
     elif kind == "symlink":
         p = _P(20, [S(draw(link_targets)), S(draw(paths))], "symlink")
     elif kind == "checkfile":
-        algs = draw(st.sampled_from([b"md5", b"sha1", b"md5,sha1", b"sha256,md5", b"sha256", b"", b"crc32", b"\xff"]))
-        start = draw(st.one_of(st.sampled_from([0, 1, 1023, 1024, 1025, 59999, 60000, 60001]), offsets))
-        length = draw(st.one_of(st.sampled_from([0, 0, 1, 256, 1024, 1025, 60000, 65536, 65537, 1 << 40, (1 << 64) - 1]), st.integers(0, 70000)))
-        block = draw(st.sampled_from([0, 0, 1, 255, 256, 257, 1000, 1024, 65536, 65537, 1 << 31, 0xFFFFFFFF]))
-        p = _P(200, [S(b"check-file"), S(draw(handles)), S(algs), ("u64", start), ("u64", length), ("u32", block)], "check-file")
+        p = _P(200, [S(b"check-file"), draw(handle_fields), S(draw(_p_algs)), ("u64", draw(_p_cfstart)), ("u64", draw(_p_cflen)), ("u32", draw(_p_cfblock))], "check-file")
     elif kind == "posixrename":
         p = _P(200, [S(b"posix-rename@openssh.com"), S(draw(paths)), S(draw(paths))], "posix-rename")
     elif kind == "extother":
-        name = draw(st.sampled_from([b"statvfs@openssh.com", b"", b"check-file\x00", b"\xff\xff", b"hardlink@openssh.com", b"CHECK-FILE", b"posix-rename@openssh.co"]))
-        p = _P(200, [S(name), ("raw", draw(st.binary(max_size=24)))], "extended:other")
+        p = _P(200, [S(draw(_p_extname)), ("raw", draw(_p_raw))], "extended:other")
     else:
-        t = draw(st.one_of(st.integers(0, 255), st.sampled_from([0, 1, 2, 21, 22, 100, 101, 102, 103, 104, 105, 199, 201, 255])))
+        t = draw(_p_cmd)
         if t in REQ_NAMES:
             t = 21
-        p = _P(t, [("raw", draw(st.binary(max_size=24)))], "cmd%d" % t)
+        p = _P(t, [("raw", draw(_p_raw))], "cmd%d" % t)
     p["id"] = draw(ids)
-    p["mut"] = draw(st.one_of(st.just(None), st.just(None), st.just(None), st.tuples(st.sampled_from(["trunc", "oversize", "trail"]), st.integers(0, 1 << 30))))
+    p["mut"] = draw(_p_mut)
     return p
+
+
+_packets = packet_st()
 
 
 def encode_packet(p):
@@ -1093,18 +1304,54 @@ _openers = [
 ]
 
 
+# operations of the served handle / server interface that a fault plan can make fail (vlib.sftpenv on_call / on_read / on_write)
+FAULT_OPS = (
+    "handle.close handle.stat handle.chattr handle.read handle.write iface.open iface.list_folder iface.stat iface.lstat "
+    "iface.chattr iface.remove iface.rename iface.posix_rename iface.mkdir iface.rmdir iface.readlink iface.symlink"
+).split()
+fault_st = st.builds(
+    lambda op, n, count, act: {"op": op, "n": n, "count": count, "act": list(act)},
+    st.sampled_from(FAULT_OPS),
+    st.sampled_from([0, 0, 0, 1, 1, 2, 3, 5]),
+    st.sampled_from([1, 1, 1, 2, 50]),
+    st.one_of(
+        st.tuples(st.just("raise"), st.sampled_from([28, 5, 13, 2, 122])),  # ENOSPC EIO EACCES ENOENT EDQUOT
+        st.tuples(st.just("error"), st.sampled_from([2, 3, 4, 8, 1])),  # NO_SUCH_FILE PERMISSION_DENIED FAILURE OP_UNSUPPORTED EOF
+    ),
+)
+_fault_act = st.one_of(
+    st.tuples(st.just("raise"), st.sampled_from([28, 5, 13, 2, 122])),
+    st.tuples(st.just("error"), st.sampled_from([2, 3, 4, 8, 1])),
+)
+# per packet: the backend call number `skip` made while that request is served fails
+packet_fault = st.builds(lambda skip, act: {"skip": skip, "act": list(act)}, st.sampled_from([0, 0, 0, 0, 1, 2]), _fault_act)
+fault_plans = st.one_of(st.just([]), st.just([]), st.lists(fault_st, min_size=1, max_size=4))
+
+
+_densities = st.sampled_from([0, 4, 2])
+_one_in = {4: st.integers(1, 4), 2: st.integers(1, 2)}
+_min_sizes = st.sampled_from([1, 6, 12])
+_heads = st.lists(st.sampled_from(_openers), max_size=4)
+
+
 @st.composite
 def server_case_st(draw, max_body=57):
-    head = draw(st.lists(st.sampled_from(_openers), max_size=3))
-    body = draw(st.lists(packet_st(), min_size=1, max_size=max_body))
+    head = draw(_heads)
+    # (hypothesis lists are about min_size + 5 long on average: the minimum is generated too, for longer streams)
+    body = draw(st.lists(_packets, min_size=min(draw(_min_sizes), max_body), max_size=max_body))
+    faults = draw(fault_plans)
+    # fault density of this stream: none / about one request in four / about one in two
+    density = draw(_densities)
     pkts = []
     nt = False
     allocated = 0
     rid = 1000
-    for p in [dict(x) for x in head] + body:
+    for idx, p in enumerate([dict(x) for x in head] + body):
         if "id" not in p:
             rid += 1
             p = dict(p, id=rid, mut=None)
+        if any(k == "live" for k, v in p["fields"]):
+            p = dict(p, fields=[("s", b"hx%d" % (1 + v % (len(head) if head and v < 12 else max(1, allocated)))) if k == "live" else (k, v) for k, v in p["fields"]])
         b, d = encode_packet(p)
         t = p["t"]
         if t not in REQ_NAMES or t == 200 or p.get("mut") is not None:
@@ -1117,7 +1364,13 @@ def server_case_st(draw, max_body=57):
         if t in (3, 11):
             allocated += 1
         pkts.append({"t": t, "id": p["id"], "body": b, "d": d})
-    return {"kind": "server", "pkts": pkts, "nt": nt}
+        if density and idx >= len(head) and t in REQ_NAMES and draw(_one_in[density]) == 1:
+            pkts[-1]["fault"] = draw(packet_fault)
+            pkts[-1]["d"] += "/backend-call-%d-fails(%s %d)" % (pkts[-1]["fault"]["skip"], pkts[-1]["fault"]["act"][0], pkts[-1]["fault"]["act"][1])
+    case = {"kind": "server", "pkts": pkts, "nt": nt}
+    if faults:
+        case["faults"] = faults
+    return case
 
 
 slots = st.integers(0, 1)
@@ -1139,11 +1392,46 @@ client_op = st.one_of(
 )
 
 
+# operations on the read file /r0 (100000 bytes = 4 read-ahead requests), which may have prefetch / readv replies outstanding
+_maxconc = st.sampled_from([None, None, 1, 2])
+_rv_chunk = st.tuples(st.sampled_from([0, 1, 1000, 32768, 40000, 65536, 90000, 99999, 100000, 120000]), st.sampled_from([1, 100, 32768, 40000, 70000]))
+r_op = st.one_of(
+    st.tuples(st.just("ropen"), st.booleans(), _maxconc, st.integers(0, 1), st.booleans()),
+    st.tuples(st.just("rprefetch"), _maxconc, st.booleans()),
+    st.tuples(st.just("rreadv"), st.lists(_rv_chunk, min_size=1, max_size=5), st.integers(0, 5), _maxconc, st.booleans()),
+    st.tuples(st.just("rread"), st.sampled_from([1, 100, 32768, 50000, 100000, -1])),
+    st.tuples(st.just("rread"), st.sampled_from([1, 1, 10, 100, 1000])),
+    st.tuples(st.just("rtruncate"), st.sampled_from([0, 1000, 50000, 100000, 150000])),
+    st.tuples(st.just("rchmod"), st.sampled_from([0o600, 0o644, 0o640])),
+    st.tuples(st.just("rutime"), st.sampled_from([None, (1, 2), (1700000000, 1700000001)])),
+    st.tuples(st.just("rfstat")),
+    st.tuples(st.just("rseek"), st.sampled_from([0, 1, 1000, 32768, 50000, 99999, 100000, 120000, -10, -1000]), st.sampled_from([0, 0, 1, 2])),
+    st.tuples(st.just("rclose")),
+)
+_session_op = st.one_of(st.tuples(st.just("stat"), st.integers(0, 5)), st.tuples(st.just("listdir")))
+_foci = st.sampled_from(["writes", "writes", "readahead", "readahead", "mixed"])
+_ops_by_focus = {
+    "writes": st.lists(client_op, min_size=1, max_size=14),
+    "readahead": st.lists(st.one_of(r_op, r_op.map(lambda v: v), r_op.map(lambda v: v), r_op.map(lambda v: v), _session_op), min_size=1, max_size=14),
+    "mixed": st.lists(st.one_of(client_op, r_op), min_size=1, max_size=14),
+}
+_whead = st.sampled_from([0, 0, -1])
+_zero3 = st.integers(0, 3)
+
+
 @st.composite
 def client_case_st(draw):
-    head = [["wopen", 0, True, draw(st.sampled_from([0, 0, -1]))]] if draw(st.integers(0, 3)) else []
-    ops = head + [list(o) for o in draw(st.lists(client_op, min_size=1, max_size=14))]
-    return {"kind": "client", "ops": ops}
+    """focus = which part of the client a program leans on: pipelined writes (with other requests in between), read-ahead
+    (prefetch / readv on a file, then truncate / chmod / utime / stat / seek / reads on that file while replies are
+    outstanding), or both."""
+    focus = draw(_foci)
+    head = []
+    if focus != "readahead" and draw(_zero3):
+        head.append(["wopen", 0, True, draw(_whead)])
+    if focus != "writes" and draw(_zero3):
+        head.append(["ropen", True, draw(_maxconc), draw(_zero3) % 2, draw(_zero3) > 0])
+    ops = head + [list(o) for o in draw(_ops_by_focus[focus])]
+    return {"kind": "client", "ops": ops, "focus": focus}
 
 
 # ----------------------------------------------------------------------------- entry points
@@ -1174,7 +1462,7 @@ def run(ctx):
             execute(ctx, probe)
     ctx.note("steering", {k: _excluded(k) for k in EXCLUDE})
     _explore(ctx, server_case_st(max_body=ctx.scale(25, 57)), lambda c: execute(ctx, c), ctx.scale(450, 5000))
-    _explore(ctx, client_case_st(), lambda c: execute(ctx, c), ctx.scale(120, 1000), shrink=False, seed_offset=1)
+    _explore(ctx, client_case_st(), lambda c: None if _client_blocked[0] else execute(ctx, c), ctx.scale(120, 1000), shrink=False, seed_offset=1)
 
 
 def replay(ctx, case):
